@@ -532,3 +532,19 @@ package basicnode
 //@   requires nb != nil
 //@   assigns *nb
 //@   ensures[C01,C12] fresh(nb.plainLink__Assembler.w) && nb.plainLink__Assembler.w.x == nil
+
+// ---- bytes: the any-builder holds a fresh node over the assigned slice; the bytes builder holds
+//      the assigned slice itself (no copy is made, as documented) and Build returns it ----
+//@ func (*anyBuilder).AssignBytes(v) (err)
+//@   rejects[C12] nb != nil && nb.kind != datamodel.Kind_Invalid
+//@   requires nb != nil && nb.kind == datamodel.Kind_Invalid
+//@   assigns nb.kind, nb.scalarNode
+//@   ensures[C01,C12] err == nil && nb.kind == datamodel.Kind_Bytes && fresh(nb.scalarNode) && dyntype(nb.scalarNode, "*plainBytes") && *unbox(nb.scalarNode, "*plainBytes") == v
+//@ func (*plainBytes__Assembler).AssignBytes(v) (err)
+//@   requires na != nil
+//@   assigns na.w
+//@   ensures[C01,C12] err == nil && dyntype(na.w, "plainBytes") && unbox(na.w, "plainBytes") == v
+//@ func (*plainBytes__Builder).Build() (n)
+//@   requires nb != nil
+//@   assigns nothing
+//@   ensures[C01,C12] n == nb.plainBytes__Assembler.w
